@@ -1,7 +1,7 @@
 """C17 - verdicts do not depend on the order of SAN entries or of extensions."""
 import common
 
-THEOREMS = ["c17_first_offender_perm", "c17_label_lints_perm", "c17_na_first_refuted", "c17_find_ext_perm", "c17_name_lints_perm", "c17_name_lints_range", "c17_name_twins_agree", "c17_gn_lints_perm", "c17_raw_lints_perm"]
+THEOREMS = ["c17_first_offender_perm", "c17_label_lints_perm", "c17_na_first_refuted", "c17_find_ext_perm", "c17_name_lints_perm", "c17_name_lints_range", "c17_name_twins_agree", "c17_gn_lints_perm", "c17_raw_lints_perm", "c17_cn_san_lints_perm", "c17_cn_exact_spec"]
 
 # lints that walk c.Extensions themselves (reviewed: they look extensions up by OID or test every element)
 ALLOW_EXT_READERS = None  # recorded, not gated: the dynamic permutation run decides
@@ -32,8 +32,20 @@ def run(ctx):
                "Definition chkn (c : nview * list Z) : bool := zl_ok (all_name_lints (fst c)) (snd c).\n")
     fn = common.corr_stream(ctx, "names", d["cases"].get("names", []), nheader, "chkn",
                             "Names.all_name_lints (fourteen name-scanning lints, modelled in full) vs the real lints through the framework")
+    common.require_outcomes(ctx, "names", d["cases"].get("names", []), [{"1", "3", "6"}] * 8 + [{"1", "3", "4"}] + [{"1", "3", "6"}] * 5)
     if not mon:
         common.report_disagreements(ctx, "names", fn, "Kernels.Names.all_name_lints (c17_name_lints_perm applies to the model only)", [])
+    cheader = ("From ZL Require Import Base.Bytes Base.Corr Kernels.CnSan.\nFrom Coq Require Import ZArith List.\nImport ListNotations.\nOpen Scope Z_scope.\n"
+               "Definition fold_ascii (a b : bytes) : bool := beqb (map lower_ascii a) (map lower_ascii b).\n"
+               "Definition zq (m o : Z) : bool := (o =? -9) || (m =? o).\n"
+               "Definition chkc (c : cview * list Z * bytes) : bool := match c with (v, sts, det) =>\n"
+               "  match sts with [a; b; r; e] => zq (fst (l_cn_exact v)) a && (negb (a =? 6) || beqb (snd (l_cn_exact v)) det) && zq (l_cn_from_san fold_ascii v) b && zq (l_redacted v) r && zq (l_ev_wildcard v) e\n"
+               "  | _ => false end end.\n")
+    fc = common.corr_stream(ctx, "cnsan", d["cases"].get("cnsan", []), cheader, "chkc",
+                            "CnSan.l_cn_exact / l_cn_from_san / l_redacted / l_ev_wildcard (common name versus SAN entries, modelled in full) vs the real lints by direct call")
+    common.require_outcomes(ctx, "cnsan", d["cases"].get("cnsan", []), [{"1", "3", "6"}, {"1", "3", "6"}, {"1", "3", "4"}, {"1", "3", "6"}])
+    if not mon:
+        common.report_disagreements(ctx, "cnsan", fc, "Kernels.CnSan (c17_cn_san_lints_perm applies to the model only)", [])
     # static (go/ast, regenerated): no loop over a SAN name list, or over the extension list, can leave with two different statuses
     san_fields = {"DNSNames", "EmailAddresses", "URIs", "IPAddresses", "OtherNames", "DirectoryNames", "EDIPartyNames", "RegisteredIDs", "FailedToParseNames",
                   "PermittedDNSNames", "ExcludedDNSNames"}
